@@ -36,7 +36,7 @@ def split_lives(hist):
     for h in hist:
         if h["a"] == "start":
             cur = {"force": h["force"], "file": h["file"], "ans": "ack", "fault": None, "crash": None,
-                   "steps": []}
+                   "steps": [], "start_mode": "boot", "reboot": False, "crash_phase": 0}
             lives.append(cur)
         else:
             cur["steps"].append(h)
@@ -46,6 +46,11 @@ def split_lives(hist):
                 cur["fault"] = h["op"]
             elif h["a"] == "crash":
                 cur["crash"] = h["at"]
+                cur["crash_phase"] = 1 if cur["reboot"] else 0
+            elif h["a"] == "load":
+                cur["start_mode"] = h.get("mode", "boot")
+            elif h["a"] == "reboot":
+                cur["reboot"] = True
     return lives
 
 
@@ -60,7 +65,14 @@ def concrete_crash(plat, life, rng):
     if at == "stopping" and any(s["a"] == "fs" and s["op"] == "close" and s["ok"] == "t"
                                 for s in life["steps"]):
         return rng.choice(["fs:close:post", "ending"])
-    return rng.choice(CRASH_POINTS[plat][at])
+    pts = list(CRASH_POINTS[plat][at])
+    if life["crash_phase"] == 1:
+        pts = [p for p in pts if p not in ("started", "loaded")] or ["reboot"]
+    elif life["start_mode"] == "signer":
+        # no bootloader at start-up: only the exchanges of a signer-mode bring-up exist
+        pts = [p for p in pts if p in ("started", "loaded", "apdu:is_onboard", "apdu:get_mode", "apdu:params",
+                                       "ending")] or ["apdu:params"]
+    return rng.choice(pts)
 
 
 def cause_of(events):
@@ -94,8 +106,10 @@ def replay_history(ctx, tag, plat, lives):
     plans = []
     for lf in lives:
         cp = concrete_crash(plat, lf, ctx.rng)
-        plans.append({"force": lf["force"], "ans": lf["ans"], "fault": lf["fault"], "crash": cp})
-        h.lifetime(lf["force"], lf["ans"], lf["fault"], cp)
+        plans.append({"force": lf["force"], "ans": lf["ans"], "fault": lf["fault"], "crash": cp,
+                      "start_mode": lf["start_mode"], "reboot": lf["reboot"], "crash_phase": lf["crash_phase"]})
+        h.lifetime(lf["force"], lf["ans"], lf["fault"], cp, start_mode=lf["start_mode"], reboot=lf["reboot"],
+                   crash_phase=lf["crash_phase"])
     return h, plans
 
 
@@ -148,7 +162,7 @@ def run(ctx):
     r = tlc.check("PinStore", "MC_PinStore.cfg", coverage=True, workers=4)
     if r.violated:
         raise core.MachineryError("PinStore model violates %s outside the known window" % r.violated)
-    res.add_tlc(r, "MC_PinStore exhaustive (3 lifetimes, <=1 fs fault, <=2 crashes)")
+    res.add_tlc(r, "MC_PinStore exhaustive (3 lifetimes, <=1 fs fault, <=2 crashes, <=1 reboot while serving)")
     never = [a for a, c in r.action_counts().items() if c == 0 and a not in ("Init",)]
     if never:
         raise core.MachineryError("vacuity: PinStore actions never taken: %s" % never)
@@ -194,11 +208,15 @@ def run(ctx):
             allpts = sorted({p for v in CRASH_POINTS[plat].values() for p in v} |
                             {"fs:close:post", "fs:open:fail", "fs:write:fail", "fs:close:fail"})
             crash = ctx.rng.choice([None, None] + allpts)
-            h.lifetime(force, ans, fault, crash)
+            sm = ctx.rng.choice(["boot", "boot", "signer"])
+            rb = ctx.rng.random() < 0.4
+            cph = ctx.rng.choice([0, 1]) if rb else 0
+            h.lifetime(force, ans, fault, crash, start_mode=sm, reboot=rb, crash_phase=cph)
             lives.append({"force": force, "ans": ans, "fault": fault,
                           "crash": None if crash is None else "random", "steps": [{"a": "fs"}],
                           "file": init})
-            plans.append({"force": force, "ans": ans, "fault": fault, "crash": crash})
+            plans.append({"force": force, "ans": ans, "fault": fault, "crash": crash, "start_mode": sm,
+                          "reboot": rb, "crash_phase": cph})
         t = h.trace(len(traces) + 1)
         traces.append(t)
         newpins += h.newpins
@@ -273,7 +291,8 @@ def replay(ctx, path):
     pinlife.preload()
     h = pinlife.History(ctx.scratch, "replay", d["plat"], d["init_file"], "replay")
     for p in d["plans"]:
-        h.lifetime(p["force"], p["ans"], p["fault"], p["crash"])
+        h.lifetime(p["force"], p["ans"], p["fault"], p["crash"], start_mode=p.get("start_mode", "boot"),
+                   reboot=p.get("reboot", False), crash_phase=p.get("crash_phase", 0))
     t = h.trace(1)
     verdicts, _ = tlc.validate("TracePinStore", "Trace_PinStore.cfg", [t])
     print(json.dumps({"events": t["ev"], "verdict": verdicts[1]}, indent=1))
